@@ -156,6 +156,62 @@ def run_cfg(chk, facts, cfg):
                 except NotReal as e:
                     probs.append(str(e))
                 chk.ob('%s:wald:contains-estimate:%s%s' % (PID, kname, sfx), 'sign-certificate', 'Wald(%s) contains k/n' % kname, not probs, '; '.join(probs), 'proportion::ci_z_normal')
+    # ---- D4 nesting in the level
+    # (a) producers whose bounds are affine in the critical value c: lo = a - b*c, hi = a + b*c with b >= 0,
+    #     and c = quantile(q(L)) is non-decreasing in L (contract of a quantile function) => CI(L1) in CI(L2)
+    from .C06 import affine_in
+    from ..meanci import crit_atoms
+    for which in ('arithmetic', 'paired', 'unpaired', 'geometric'):
+        for kind, kname in KINDS:
+            key = '%s:%s:nested:%s%s' % (PID, which, kname, sfx)
+            try:
+                res = pr.mean_like(which, kind, L)
+                probs = []
+                for below, dec in res.items():
+                    bnds = [(n_, b) for n_, b in (('lo', dec[1]), ('hi', dec[2])) if finite(b)]
+                    for n_, b in bnds:
+                        if which == 'geometric':
+                            if not (b[0] == 'op' and b[1] == 'exp'):
+                                probs.append('bound is not exp(..)')
+                                continue
+                            b = b[2][0]   # exp is increasing
+                        cs = set(crit_atoms(b))
+                        if len(cs) != 1:
+                            probs.append('%d critical values in the %s bound' % (len(cs), n_))
+                            continue
+                        ab = affine_in(nf, b, cs.pop())
+                        if ab is None:
+                            probs.append('%s bound is not affine in the critical value' % n_)
+                            continue
+                        dom = pr.dom({'n': (Fraction(2), None, False, True), 'v': (Fraction(0), None, False, True), 'na': (Fraction(2), None, False, True),
+                                      'nb': (Fraction(2), None, False, True), 'va': (Fraction(0), None, True, True), 'vb': (Fraction(0), None, False, True)})
+                        sg = dom.sign(ab[1])
+                        if (n_ == 'lo' and sg not in ('-', '0-', '0')) or (n_ == 'hi' and sg not in ('+', '0+', '0')):
+                            probs.append('the %s bound moves the wrong way with the critical value (coefficient sign %s)' % (n_, sg))
+                chk.ob(key, 'monotone-in-c', '%s(%s): raising the level never shrinks the interval (bounds affine in c with -se / +se, c non-decreasing in the level)' % (which, kname),
+                       not probs, '; '.join(probs[:2]), which)
+            except (Unsupported, NotReal) as e:
+                chk.ob(key, 'monotone-in-c', which, None, 'undecided: %s' % e, which)
+    # (b) Wilson: the bounds must be the signed formula centre -/+ z/(n+z^2)*sqrt(..) (monotonicity of that
+    #     formula in z is the cited theorem); quantile ranks are monotone images (floor, min) of the Wilson bounds
+    from .C02 import wilson_ref, wald_ref
+    from ..meanci import NORMAL, crit, nonneg_crit
+    for method in ('wilson', 'wald'):
+        for kind, kname in KINDS:
+            key = '%s:%s:nested-premise:%s%s' % (PID, method, kname, sfx)
+            try:
+                gk, lo, hi = pr.proportion(method, kind, L)
+                z = crit(NORMAL, pr.cm.quantile(kind, L))
+                centre, span = wilson_ref(z) if method == 'wilson' else wald_ref(z)
+                probs = []
+                with nonneg_crit(nf, z, kind == 'two'):
+                    if kind in ('two', 'upper') and not nf.term_equal(lo, T.op('sub', centre, span)):
+                        probs.append('lower bound is not centre - span with the signed span')
+                    if kind in ('two', 'lower') and not nf.term_equal(hi, T.op('add', centre, span)):
+                        probs.append('upper bound is not centre + span with the signed span')
+                chk.ob(key, 'E4', '%s(%s): bounds are centre -/+ span with span carrying the sign of z (premise of nesting in the level)' % (method, kname), not probs, '; '.join(probs), method)
+            except (Unsupported, NotReal) as e:
+                chk.ob(key, 'E4', method, None, 'undecided: %s' % e, method)
     # ---- quantile ranks
     try:
         res = {kind: pr.quantile(kind, L) for kind, _ in KINDS}
@@ -173,7 +229,7 @@ def run_cfg(chk, facts, cfg):
     if cfg == 'default':
         chk.floor('producers', nprod, 8)
     chk.rules.append('E3 kind table; E7 substitution L -> 2L-1 on the code terms; sign certificates for containment of the point estimate')
-    chk.notes.append('NOT decided: CI(L1) included in CI(L2) for L1 < L2 (monotonicity of external quantile functions); Wilson and quantile-rank containment of the point estimate (analytic)')
+    chk.notes.append('nesting in the level: decided for the affine producers modulo the contract "a quantile function is non-decreasing"; for Wilson / quantile ranks only the premise (signed formula) is decided, monotonicity of that formula in z is a cited theorem; Wilson and quantile-rank containment of the point estimate are analytic and not decided')
 
 
 ASSUMPTIONS = ['floats as reals; admissible inputs; quantile of a zero-location symmetric distribution is >= 0 at q >= 1/2 (contract)']
